@@ -294,6 +294,7 @@ class Interp:
         self.cur = None             # (bi, si)
         self.counter = 0
         self.cond = {}              # (sv, val) -> [("le", a, b, k)] conditional facts (site-determined, global per body)
+        self.site_tag = None
 
     # ---------------------------------------------------------------- entry
     def initial_state(self):
@@ -308,6 +309,9 @@ class Interp:
 
     def site(self, extra=None):
         bi, si = self.cur
+        if self.site_tag is not None:
+            # an activation inlined into a replayed path: values created here are distinct per call site
+            extra = ("in", self.site_tag) if extra is None else (extra, "in", self.site_tag)
         if extra is None:
             return (self.body.key, bi, si)
         return (self.body.key, bi, si, extra)
@@ -598,14 +602,19 @@ class Interp:
 
     def discr_of(self, S, v, ty):
         adt = ty.get("adt") if ty.get("k") == "adt" else None
-        if isinstance(v, tuple) and v[0] == "upd":
-            base = v[1]
-            if isinstance(base, tuple) and base[0] == "agg":
-                v = base
+        while isinstance(v, tuple) and v[0] == "upd":
+            # an update refines / overwrites payload fields below a downcast, never the variant itself
+            v = v[1]
         if isinstance(v, tuple) and v[0] == "agg" and isinstance(v[1], str) and v[2] is not None:
             return K("isize", self.ctx.variant_discr(v[1], v[2]))
         if isinstance(v, tuple) and v[0] == "try":
-            inner = ("discr", v[1])
+            x = v[1]
+            while isinstance(x, tuple) and x[0] == "upd":
+                x = x[1]
+            if isinstance(x, tuple) and x[0] == "agg" and isinstance(x[1], str) and x[2] is not None:
+                inner = K("isize", self.ctx.variant_discr(x[1], x[2]))
+            else:
+                inner = ("discr", x)
             if v[2] == "R":
                 return inner
             return ("cmp", "Eq", inner, K("isize", 0))
